@@ -37,6 +37,9 @@ pub struct Parser<R> {
     scratch: Vec<u8>,
     remaining_depth: u8,
     options: Options,
+    /// Set once an iterator over this parser has yielded an error; the
+    /// iterators are fused, i.e. they yield `None` from then on.
+    iteration_failed: bool,
 }
 
 /// Various options to influence parser behavior.
@@ -285,6 +288,7 @@ where
             scratch: Vec::with_capacity(128),
             remaining_depth: 128,
             options: Options::default(),
+            iteration_failed: false,
         }
     }
 
@@ -303,6 +307,7 @@ where
             scratch: Vec::with_capacity(128),
             remaining_depth: 128,
             options,
+            iteration_failed: false,
         }
     }
 }
@@ -433,6 +438,9 @@ impl<'de, R: Read<'de>> Parser<R> {
 
     /// Obtain an iterator over the values produced by the parser.
     ///
+    /// Iteration ends at the end of input or after the first error: once an
+    /// error has been yielded, the iterator yields `None`.
+    ///
     /// ```
     /// # use lexpr::Parser;
     /// let mut parser = Parser::from_str(r#"foo ("bar" . 3.14) #:baz (1 2 3)"#);
@@ -445,6 +453,9 @@ impl<'de, R: Read<'de>> Parser<R> {
     }
 
     /// Obtain an iterator over the values produced by the parser, including location information.
+    ///
+    /// Iteration ends at the end of input or after the first error: once an
+    /// error has been yielded, the iterator yields `None`.
     ///
     /// ```
     /// # use lexpr::Parser;
@@ -1588,7 +1599,14 @@ where
     type Item = Result<Value>;
 
     fn next(&mut self) -> Option<Self::Item> {
-        self.0.next_value().transpose()
+        if self.0.iteration_failed {
+            return None;
+        }
+        let item = self.0.next_value().transpose();
+        if let Some(Err(_)) = item {
+            self.0.iteration_failed = true;
+        }
+        item
     }
 }
 
@@ -1602,7 +1620,14 @@ where
     type Item = Result<Datum>;
 
     fn next(&mut self) -> Option<Self::Item> {
-        self.0.next_datum().transpose()
+        if self.0.iteration_failed {
+            return None;
+        }
+        let item = self.0.next_datum().transpose();
+        if let Some(Err(_)) = item {
+            self.0.iteration_failed = true;
+        }
+        item
     }
 }
 
